@@ -217,6 +217,9 @@ func parse(h *protocol.ResponseHeader, buf []byte) (int, error) {
 	if err != nil {
 		return 0, err
 	}
+	if !ext.HeadersComplete(buf[m:]) {
+		return 0, errs.ErrNeedMore
+	}
 	n, err := parseHeaders(h, buf[m:])
 	if err != nil {
 		return 0, err
